@@ -37,9 +37,7 @@ func (o *opt) Match(args []string, c *ParseContext) (bool, []string) {
 	for idx < len(args) {
 		arg := args[idx]
 		switch {
-		case arg == "-":
-			idx++
-		case arg == "--":
+		case arg == "-", arg == "--":
 			return o.theOne.ValueSetFromEnv, args
 		case strings.HasPrefix(arg, "--"):
 			matched, consumed, nargs := o.matchLongOpt(args, idx, c)
